@@ -195,7 +195,7 @@ def rule4_edges(ctx, m, a, s):
                 continue            # the element-wise loops (zeroing, += x / += c) are rule C18.3
             K = idx[-1][1]
             av = lib.affine(a, st.ops[0])
-            lds = [k for k in av if k in a.insts and a.insts[k].op == 'load' and a.ap(a.insts[k].ops[0]).key() == ap.key()]
+            lds = [k for k in av if k in a.insts and a.insts[k].op == 'load' and lib.same_addr(a, a.insts[k].ops[0], st.ops[1])]
             inc = None
             if len(lds) == 1 and av[lds[0]] == 1:
                 rest = {k: c for k, c in av.items() if k != lds[0] and c != 0}
@@ -224,7 +224,7 @@ def rule4_edges(ctx, m, a, s):
             if ki is not None and ki.op == 'load' and e.field(ki) == INFO + 'in_edge_kind':
                 for sw in [i for i in e.order if i.op == 'switch']:
                     ci = e.get(e.strip(sw.d['cond'])) if isinstance(sw.d.get('cond'), str) else None
-                    if ci is not None and ci.op == 'load' and e.ap(ci.ops[0]).key() == e.ap(ki.ops[0]).key():
+                    if ci is not None and ci.op == 'load' and lib.same_addr(e, ci.ops[0], ki.ops[0]):
                         for v, t in sw.d['cases']:
                             if e.edge_dominates(sw.block.id, t, c):
                                 kinds.add(ekn.get(v, str(v)))
@@ -313,7 +313,7 @@ def rule4_edges(ctx, m, a, s):
             if const_int(st.ops[0]) == 0:
                 continue
             av = lib.affine(ce, st.ops[0])
-            own = [k for k in av if k in ce.insts and ce.insts[k].op == 'load' and ce.ap(ce.insts[k].ops[0]).key() == ce.ap(st.ops[1]).key()]
+            own = [k for k in av if k in ce.insts and ce.insts[k].op == 'load' and lib.same_addr(ce, ce.insts[k].ops[0], st.ops[1])]
             okacc = len(own) == 1 and av[own[0]] == 1
             n_acc += 1
             src = [k for k in av if k in ce.insts and ce.insts[k].op == 'load' and ce.field(ce.insts[k]) == INFO + 'logical_edge_counts']
